@@ -81,8 +81,22 @@ pub fn fold_trace(out: &CmdOut, root: &std::path::Path) {
     let root = root.to_string_lossy().to_string();
     let mut h = TRACE_DIGEST.with(|d| d.get());
     for t in &out.trace {
-        let line = format!("{}|{}|{}|{}|{}|{:?}|{}", t.actor, t.kind, t.path.replace(&root, "$ROOT"), t.len, t.hash, t.verdict, t.now);
+        // Known leaks, normalised: the bundle staging directory has a random temp name, and
+        // veryl records the staged paths in info.toml (so its content hash carries the name).
+        let mut path = t.path.replace(&root, "$ROOT");
+        if let Some(i) = path.find("/.tmp") {
+            let end = (i + 11).min(path.len());
+            path.replace_range(i..end, "/.tmpXXXXXX");
+        }
+        let hash = if t.kind == "info.data" || t.kind == "info.read" { 0 } else { t.hash };
+        let line = format!("{}|{}|{}|{}|{}|{:?}|{}", t.actor, t.kind, path, t.len, hash, t.verdict, t.now);
         h = simcore::rng::splitmix(h ^ simcore::fsutil::fnv(line.as_bytes()));
+        if let Ok(p) = std::env::var("PROCSIM_TRACE_DUMP") {
+            use std::io::Write;
+            if let Ok(mut f) = std::fs::OpenOptions::new().create(true).append(true).open(p) {
+                let _ = writeln!(f, "{line}");
+            }
+        }
     }
     h = simcore::rng::splitmix(h ^ simcore::fsutil::fnv(format!("{:?}", out.exit).as_bytes()));
     TRACE_DIGEST.with(|d| d.set(h));
